@@ -6,17 +6,20 @@
     directory of dfan.c, over the element layer's specification; constants, the key macros, ANIanncmp, the
     UINT16 codec, all type<->tag switches and the truncation / match conditions come from coq/gen/Gen_AN.v.
     S = ANSpec.v: the finite map (type, ref) |-> (target, text).
-    "Reachable" = produced from the initial state by ANY sequence of harness steps (every AN and DFAN call of the
-    property's quantifier) whose annotation-type arguments are 0..3 ([op_types_ok]; other values index
+    "Reachable" = the library tables of ANY file [f] after ANY sequence of harness steps (every AN and DFAN call of
+    the property's quantifier, on several files used alternately in one process: [GFile n] switches the file, the
+    dfan.c statics are shared) whose annotation-type arguments are 0..3 ([gop_ok]; other values index
     file_rec->an_num[] out of bounds in C). *)
 From Coq Require Import ZArith List Bool.
-Require Import H4.gen.Gen_AN H4.ANSpec H4.ANModel H4.ANProofs H4.ANProofs2.
+Require Import H4.ANLang H4.gen.Gen_AN H4.ANSpec H4.ANModel H4.ANProofs H4.ANProofs2 H4.ANSim.
 Import ListNotations.
 Local Open Scope Z_scope.
 
 (** every reachable state of the library tables satisfies the invariant [Inv] the theorems below start from *)
-Theorem an_reachable_invariant : forall ops, Forall op_types_ok ops -> Inv (h_lib (mrun hinit ops)).
-Proof. intros ops H. exact (reachable_Inv ops hinit Inv_init H). Qed.
+Definition reach_lib (names : Z -> list Z) (xs : list gop) (f : Z) : lstate := h_lib (g_files (grun (ginit names) xs) f).
+
+Theorem an_reachable_invariant : forall names xs f, Forall gop_ok xs -> Inv (reach_lib names xs f).
+Proof. intros names xs f H. exact (greachable_Inv xs (ginit names) (ginit_Inv names) H f). Qed.
 Print Assumptions an_reachable_invariant.
 
 (** payload: 4-byte target prefix (data annotations) + text; any bytes, embedded NULs included *)
@@ -31,12 +34,12 @@ Print Assumptions an_payload_roundtrip.
 (** identifiers <-> stored tag/ref pairs, one-to-one, in every reachable state: two identifiers with the same
     tag/ref are the same identifier; ANtagref2id inverts ANid2tagref, and ANid2tagref inverts ANtagref2id.
     (Before the fix of ANIcreate this fails: see design.d/C11.md, defect 18.) *)
-Theorem an_id_bijection : forall ops, Forall op_types_ok ops ->
-  let s := h_lib (mrun hinit ops) in
+Theorem an_id_bijection : forall names xs f, Forall gop_ok xs ->
+  let s := reach_lib names xs f in
   (forall id1 id2 tr, ANid2tagref s id1 = Some tr -> ANid2tagref s id2 = Some tr -> id1 = id2) /\
   (forall id g r, ANid2tagref s id = Some (g, r) -> ANtagref2id s g r = (s, id)) /\
   (forall g r s' id, 0 <= r < 65536 -> ANtagref2id s g r = (s', id) -> id <> FAILV -> ANid2tagref s' id = Some (g, r)).
-Proof. intros ops H. exact (id_bijection_lemma _ (reachable_Inv ops hinit Inv_init H)). Qed.
+Proof. intros names xs f H. exact (id_bijection_lemma _ (greachable_Inv xs (ginit names) (ginit_Inv names) H f)). Qed.
 Print Assumptions an_id_bijection.
 
 (** a new annotation never takes a ref that is in the tree (created, perhaps unwritten) or in the file *)
@@ -50,8 +53,8 @@ Print Assumptions an_new_ref_fresh.
 (** (re)writing one annotation: no identifier changes its tag/ref, no tree changes, the bytes of every other
     annotation are untouched, the written one holds its recorded target + the new text, and the directory
     order is kept (rewrite in place) or extended by one (first write) *)
-Theorem an_rewrite_preserves_others : forall ops id text s' ok, Forall op_types_ok ops ->
-  let s := h_lib (mrun hinit ops) in
+Theorem an_rewrite_preserves_others : forall names xs f id text s' ok, Forall gop_ok xs ->
+  let s := reach_lib names xs f in
   ANIwriteann s id text = (s', ok) ->
   (forall id', ANid2tagref s' id' = ANid2tagref s id') /\
   l_tree s' = l_tree s /\ l_num s' = l_num s /\
@@ -64,52 +67,100 @@ Theorem an_rewrite_preserves_others : forall ops id text s' ok, Forall op_types_
         | Some _ => map (fun d => (d_tag d, d_ref d)) (l_dds s)
         | None => map (fun d => (d_tag d, d_ref d)) (l_dds s) ++ [(tag, ref)]
         end).
-Proof. intros ops id text s' ok H s. exact (rewrite_preserves_lemma _ _ _ _ _ (reachable_Inv ops hinit Inv_init H)). Qed.
+Proof.
+  intros names xs f id text s' ok H s.
+  exact (rewrite_preserves_lemma _ _ _ _ _ (greachable_Inv xs (ginit names) (ginit_Inv names) H f)).
+Qed.
 Print Assumptions an_rewrite_preserves_others.
 
-(** PARTIAL (an_list_exact): (1) ANannlist/ANnumann return, without repetition, exactly the identifiers of the tree
-    entries attached to the given object tag/ref, and the count agrees; (2) a tree loaded from the file holds exactly
-    the annotations of that tag that are in the file (so after a reopen listing is exact), their number being
-    Hnumber.  Together with an_new_ref_fresh / an_rewrite_preserves_others (creation adds one fresh key, writing
-    changes no tree) this determines the tree at all times, but the assembled statement -- in every reachable
-    state the tree of a loaded type = annotations in the file + created-but-unwritten ones, hence ANannlist =
-    ANSpec.on_target -- is NOT proved (missing lemma: that invariant across ANIcreate / ANIwriteann / ANend and the
-    DFAN calls made between sessions); that link rests on the R-vs-S correspondence. *)
-Theorem an_list_exact_partial :
-  (forall ops ty g r s' ids, Forall op_types_ok ops -> tyok ty ->
-     ANIannlist (h_lib (mrun hinit ops)) ty g r = (s', Some ids) ->
-     exists t, l_tree s' ty = Some t /\ NoDup ids /\
-       (forall id, In id ids <-> exists k e, In (k, e) t /\ e_elmtag e = g /\ e_elmref e = r /\ e_id e = id) /\
-       ANInumann (h_lib (mrun hinit ops)) ty g r = (s', zlen ids)) /\
-  (forall ops ty tag s' n, Forall op_types_ok ops ->
-     let s := h_lib (mrun hinit ops) in
+(** The simulation relation [Sim h a] (ANSim.v): the specification state [a] -- the finite map -- represents the
+    harness/library state [h]: the library tables satisfy [Inv] and the tree/file invariant [TF] (every loaded tree
+    holds exactly the annotations of its tag in the file plus the ones created in this session), the keys of [a] are
+    unique, [x] is in the map iff the annotation exists in [h] ([Repr]: written = a descriptor with that payload,
+    pending = a tree entry without descriptor), the session flags agree, outside a session no tree is loaded, and
+    every caller-side slot denotes the same annotation on both sides.
+    [reach h a]: produced from the empty file by AN-interface calls inside the property's domain (the specification
+    is fed the refs the library chose and answered neither [RUnspec] nor ran out of refs) and by DFAN calls. *)
+
+(** listing is exact: in EVERY reachable state, ANannlist / ANnumann of an object tag/ref, ANfileinfo and
+    ANselect(index) return what the specification's map says -- the same refs (as a permutation: the order is
+    not part of the property), the same counts, a selected annotation that exists -- never more, never fewer;
+    this includes states reached through DFAN calls and after any number of reopens. *)
+Theorem an_list_exact : forall h a, reach h a ->
+  (forall ty g r h' mr a' sr, tyok ty -> mstep h (OAnnlist ty g r) = (h', mr) -> step a (OAnnlist ty g r) = (a', sr) ->
+     Sim h' a' /\ accepts sr mr /\ sr <> RUnspec) /\
+  (forall ty g r h' mr a' sr, tyok ty -> mstep h (ONumann ty g r) = (h', mr) -> step a (ONumann ty g r) = (a', sr) ->
+     Sim h' a' /\ accepts sr mr /\ sr <> RUnspec) /\
+  (forall h' mr a' sr, mstep h OFileInfo = (h', mr) -> step a OFileInfo = (a', sr) ->
+     Sim h' a' /\ accepts sr mr /\ sr <> RUnspec) /\
+  (forall slot ty idx x0 h' mr a' sr, tyok ty -> mstep h (OSelect slot ty idx x0) = (h', mr) ->
+     step a (OSelect slot ty idx (ref_of mr)) = (a', sr) -> Sim h' a' /\ accepts sr mr /\ sr <> RUnspec).
+Proof. exact list_exact_lemma. Qed.
+Print Assumptions an_list_exact.
+
+(** the reachability relation is not empty-handed: every reachable pair is related, and a DFAN call always leaves a
+    state that SOME specification state represents (so [reach_df] can fire) *)
+Theorem an_reach_related : (forall h a, reach h a -> Sim h a) /\
+  (forall h a o h' mr, Sim h a -> is_dfan o -> mstep h o = (h', mr) -> exists a', Sim h' a').
+Proof. split; [exact reach_Sim | exact dfan_representable]. Qed.
+Print Assumptions an_reach_related.
+
+(** M-level facts about the trees used on the way (kept: they are what the tie to the file looks like) *)
+Theorem an_tree_is_file : forall names xs f ty tag s' n, Forall gop_ok xs ->
+     let s := reach_lib names xs f in
      atype2tag ty = Some tag -> l_num s ty = -1 -> ANIcreate_ann_tree s ty = (s', n) -> n <> FAILV ->
      n = hnumber tag (l_dds s) /\
      exists t, l_tree s' ty = Some t /\
-       forall k, In k (tkeys t) <-> exists d, In d (l_dds s) /\ d_tag d = tag /\ k = AN_CREATE_KEY ty (d_ref d)).
+       forall k, In k (tkeys t) <-> exists d, In d (l_dds s) /\ d_tag d = tag /\ k = AN_CREATE_KEY ty (d_ref d).
 Proof.
-  split.
-  - intros ops ty g r s' ids H Hty. exact (annlist_exact_lemma _ _ _ _ _ _ (reachable_Inv ops hinit Inv_init H) Hty).
-  - intros ops ty tag s' n H s. exact (create_tree_exact_lemma _ _ _ _ _ (reachable_Inv ops hinit Inv_init H)).
+  intros names xs f ty tag s' n H s.
+  exact (create_tree_exact_lemma _ _ _ _ _ (greachable_Inv xs (ginit names) (ginit_Inv names) H f)).
 Qed.
-Print Assumptions an_list_exact_partial.
+Print Assumptions an_tree_is_file.
 
-(** PARTIAL (an_refines_map): the read side of the refinement.  After a successful ANwriteann of [txt] through
-    identifier [id], in any reachable state, ANreadann into any buffer of maxlen >= 1 bytes leaves exactly the
-    buffer image the SPECIFICATION defines ([ANSpec.buffer_image]: labels at most maxlen-1 bytes + NUL, descriptions
-    at most maxlen bytes, rest untouched) and ANannlen returns the length of [txt]; with
-    an_rewrite_preserves_others (frame) and an_payload_roundtrip (target) this is the map law "write k v; read k = v,
-    read k' unchanged".  NOT proved: the full simulation [mstep ~ ANSpec.step] over all operations (creation order
-    vs. map order, reopen dropping unwritten entries, the DFAN directory); missing lemma: the abstraction function
-    from (descriptors, trees, atoms, DFAN directory) to ANSpec.state commutes with every step.  That part rests on
-    the R-vs-S and R-vs-M correspondence. *)
-Theorem an_refines_map_partial : forall ops id txt s' maxlen, Forall op_types_ok ops ->
-  let s := h_lib (mrun hinit ops) in
+(** PARTIAL (an_refines_map).  PROVED: the multi-file AN interface refines the map.  From ANY related pair (in
+    particular the empty file, [Sim_init], and every state of [reach]) one step of the harness on an AN operation
+    -- ANstart, ANend (i.e. reopen: unwritten annotations vanish), ANcreate, ANcreatef, ANwriteann (first write and
+    rewrite, longer or shorter), ANreadann, ANannlen, ANselect, ANfileinfo, ANnumann, ANannlist, ANtagref2id,
+    ANid2tagref, ANendaccess -- and one step of ANSpec.step fed the ref the library chose yield related states and
+    an accepted result (equal values; listings up to order; every buffer one of the images the specification
+    allows), unless the specification puts the call outside the domain ([RUnspec]: empty text, NUL in a label,
+    buffer < 1 byte) or the 16-bit ref space is exhausted (C20); [an_run_sim] lifts this to whole histories.
+    NOT proved (missing lemma: coherence of the cached DFAN directory with the file, and through DFANIopen across
+    several files): that the six DFAN operations return what ANSpec.step says (which label DFANgetlabel picks, that
+    DFANputlabel replaces a label of THAT object, DFANlablist, the file-annotation enumeration).  For them only
+    [an_reach_related] is proved (the state stays representable); their results rest on the R-vs-S and R-vs-M
+    correspondence and on [dfan_open_keeps_directory_iff_same_name]. *)
+Theorem an_refines_map_partial :
+  (forall h a o h' mr a' sr, Sim h a -> an_op o -> mstep h o = (h', mr) -> step a (fill o mr) = (a', sr) ->
+     sr = RUnspec \/ exhausted sr mr \/ (Sim h' a' /\ accepts sr mr)) /\
+  (forall ops h a, Sim h a -> Forall an_op ops -> run_ok h a ops) /\
+  Sim hinit init.
+Proof. split; [exact an_step_sim | split; [exact an_run_sim | exact Sim_init]]. Qed.
+Print Assumptions an_refines_map_partial.
+
+(** write, then read (M-level, any buffer size >= 1): exactly the specification's buffer image and the text length *)
+Theorem an_write_then_read : forall names xs f id txt s' maxlen, Forall gop_ok xs ->
+  let s := reach_lib names xs f in
   ANIwriteann s id txt = (s', true) -> 1 <= maxlen ->
   exists tag ref, ANid2tagref s id = Some (tag, ref) /\ ANid2tagref s' id = Some (tag, ref) /\
     ANIreadann s' id maxlen = Some (buffer_image (is_label_tag tag) txt maxlen) /\ ANIannlen s' id = zlen txt.
-Proof. intros ops id txt s' maxlen H s. exact (write_then_read_lemma _ _ _ _ _ (reachable_Inv ops hinit Inv_init H)). Qed.
-Print Assumptions an_refines_map_partial.
+Proof.
+  intros names xs f id txt s' maxlen H s.
+  exact (write_then_read_lemma _ _ _ _ _ (greachable_Inv xs (ginit names) (ginit_Inv names) H f)).
+Qed.
+Print Assumptions an_write_then_read.
+
+(** several files in one process: DFANIopen keeps the cached DFAN directory exactly when the file name is the one
+    used last (names are C strings shorter than DF_MAXFNLEN; not in create mode).  The condition is regenerated
+    from dfan.c: a prefix test, a shorter comparison length or a case-insensitive compare breaks this proof. *)
+Theorem dfan_open_keeps_directory_iff_same_name : forall lastfile name mode,
+  nonul lastfile -> nonul name -> strlen lastfile < DF_MAXFNLEN -> strlen name < DF_MAXFNLEN -> mode <> DFACC_CREATE ->
+  (truth (DFANIopen_newfile lastfile name mode) = false <-> lastfile = name) /\
+  (forall st, DFANIopen lastfile name mode st = if truth (DFANIopen_newfile lastfile name mode)
+                                               then mkdf (fun _ => None) (s_lastref st) (s_nextf st) (s_nomore st) else st).
+Proof. intros a b m H1 H2 H3 H4 H5. split; [exact (dfan_open_lemma a b m H1 H2 H3 H4 H5) | reflexivity]. Qed.
+Print Assumptions dfan_open_keeps_directory_iff_same_name.
 
 (** the regenerated pieces: keys are injective and invertible on type 0..32767 x ref 0..65535; the ten
     type<->tag switch statements of mfan.c agree with ANatype2tag *)
@@ -132,8 +183,20 @@ Print Assumptions an_switches_agree.
 Definition demo_ops : list op :=
   [OStart; OCreate 0 0 700 1 0; OCreate 1 0 700 1 0; OCreatef 2 3 0; OWrite 1 [66; 0; 66]; OWrite 0 [65];
    OWrite 0 [65; 65; 65; 65]; OAnnlist 0 700 1; OEnd; OStart; OSelectAll 0].
-Example demo_types_ok : Forall op_types_ok demo_ops.
+Example demo_types_ok : Forall gop_ok (map GOp demo_ops).
 Proof. repeat constructor; unfold tyok; simpl; auto with zarith. Qed.
+Definition nm (c : Z) : list Z := [104; c].       (* file names "h0", "h1", .. *)
+Example demo_two_files_share_the_directory_cache :
+  (* label 700/1 in file 0, label 700/2 in file 1, then ask file 0 again: the name differs, the cache is dropped *)
+  let g := grun (ginit (fun n => nm (48 + n)))
+                [GOp (ODfPut 0 700 1 [65] 0); GFile 1; GOp (ODfPut 0 700 2 [66; 66] 0); GFile 0] in
+  snd (gstep g (ODfGet 0 700 1 4)) = MOk [] [[65; 0; 238; 238]] /\ snd (gstep g (ODfGet 0 700 2 4)) = MFail /\
+  truth (DFANIopen_newfile (nm 49) (nm 48) DFACC_READ) = true.
+Proof. vm_compute. repeat split. Qed.
+Example demo_prefix_names_are_different_files :
+  truth (DFANIopen_newfile [120; 46; 104; 46; 98] [120; 46; 104] DFACC_RDWR) = true /\ nonul [120; 46; 104] /\
+  truth (DFANIopen_newfile [120; 46; 104] [120; 46; 104] DFACC_RDWR) = false.
+Proof. split; [vm_compute; reflexivity|]. split; [|vm_compute; reflexivity]. intros x [H|[H|[H|[]]]]; subst; discriminate. Qed.
 Example demo_ids_distinct :
   let s := h_lib (mrun hinit [OStart; OCreate 0 0 700 1 0; OCreate 1 0 700 1 0]) in
   ANid2tagref s 0 = Some (104, 1) /\ ANid2tagref s 1 = Some (104, 2) /\ ANtagref2id s 104 2 = (s, 1).
@@ -151,4 +214,29 @@ Example demo_listing_after_reopen :
 Proof. vm_compute. reflexivity. Qed.
 Example demo_payload : decode_target (payload DFTAG_DIA 65535 258 [0; 7; 0]) = (65535, 258) /\
                        payload DFTAG_DIA 65535 258 [0; 7; 0] = [255; 255; 1; 2; 0; 7; 0].
+Proof. vm_compute. split; reflexivity. Qed.
+
+(** non-vacuity of the simulation theorems: a reachable pair after a session that created and wrote an annotation,
+    the hypotheses of [an_run_sim] for a history with two creates before the first write, a rewrite and a reopen,
+    and what model and specification answer to a listing there *)
+Definition demo_an_ops : list op :=
+  [OStart; OCreate 0 0 700 1 0; OCreate 1 0 700 1 0; OCreatef 2 3 0; OWrite 1 [66; 0; 66]; OWrite 0 [65];
+   OWrite 0 [65; 65; 65; 65]; OAnnlist 0 700 1; OEnd; OStart; OFileInfo; OSelect 3 0 1 0; ORead 3 9].
+Example demo_an_ops_ok : Forall an_op demo_an_ops.
+Proof. repeat constructor; unfold tyok, u16; simpl; auto with zarith. Qed.
+Example demo_run_ok : run_ok hinit init demo_an_ops.
+Proof. exact (an_run_sim demo_an_ops hinit init Sim_init demo_an_ops_ok). Qed.
+Example demo_reach : exists h a, reach h a /\ anns a = [mkann (0, 1) 700 1 (Some [65])] /\ h_sess h = true.
+Proof.
+  eexists. eexists. split.
+  - eapply (reach_an _ _ (OWrite 0 [65])); [eapply (reach_an _ _ (OCreate 0 0 700 1 0)); [eapply (reach_an _ _ OStart); [exact reach_init | exact I | reflexivity | reflexivity | discriminate | intros [X _]; discriminate]
+      | unfold an_op, u16; auto with zarith | reflexivity | reflexivity | discriminate | intros [X _]; discriminate]
+      | exact I | reflexivity | reflexivity | discriminate | intros [X _]; discriminate].
+  - split; reflexivity.
+Qed.
+Example demo_listing_model_vs_spec :
+  let h := mrun hinit [OStart; OCreate 0 0 700 1 0; OCreate 1 0 700 1 0; OWrite 1 [66]] in
+  snd (mstep h (OAnnlist 0 700 1)) = MOk [2; 2; 1] [] /\
+  snd (step (fst (step (fst (step (fst (step (fst (step init OStart)) (OCreate 0 0 700 1 1))) (OCreate 1 0 700 1 2))) (OWrite 1 [66])))
+            (OAnnlist 0 700 1)) = ROk [2; 1; 2] [].
 Proof. vm_compute. split; reflexivity. Qed.
